@@ -2,8 +2,9 @@
      part A  the models of encoding/json's number and string syntax agree with
              the RFC 8259 grammar (json_number_ok / number_value, json_string_decode)
      part B  the structural parser accepts exactly the token grammar TokV
-     part C  accept_complete, accept_sound: statements, refutations on the
-             faithful model, and the repaired theorems; jparse_total *)
+     part C  accept_sound (full), accept_complete (refuted by big.ParseFloat's
+             exponent range; repaired under go_numbers_ok)
+     part D  jparse_total; part E  JSON texts are valid UTF-8; part F  literal mapping *)
 From HclV Require Import Base.Prelude Json.Rfc8259 Json.Rfc8259Proofs Json.Scanner Json.ScannerProofs Json.Parser.
 
 Arguments sc_digit : simpl never.
@@ -971,67 +972,34 @@ Proof.
   - constructor. exact Hi.
 Qed.
 
-(* a decodable token ends with a quote followed by whitespace only *)
-Lemma str_loop_ends : forall bs p s, str_loop bs p = Some s ->
-  exists pfx w, bs = pfx ++ 34 :: w /\ forallb js_space w = true.
+(* --- a JSON string literal is valid UTF-8 --- *)
+
+Lemma ascii_valid l : Forall (fun b => b < 128) l -> utf8_valid l = true.
 Proof.
-  intros bs. remember (length bs) as n eqn:Hn. revert bs Hn.
-  induction n as [n IH] using lt_wf_ind. intros bs Hn p s H.
-  assert (Hrec : forall r q s', (length r < length bs)%nat -> str_loop r q = Some s' ->
-                   forall front, bs = front ++ r ->
-                   exists pfx w, bs = pfx ++ 34 :: w /\ forallb js_space w = true).
-  { intros r q s' Hl Hr front E. destruct (IH (length r)) with (bs := r) (p := q) (s := s') as [pfx [w [E1 E2]]];
-      [lia|reflexivity|exact Hr|]. exists (front ++ pfx), w. split; [rewrite E, E1, <- app_assoc; reflexivity|exact E2]. }
-  destruct bs as [|c rest]; [discriminate|].
-  destruct p as [|p].
-  - destruct (Z.eq_dec c 34) as [->|N34].
-    { rewrite str_loop_quote in H. destruct (forallb js_space rest) eqn:Ew; [|discriminate].
-      exists [], rest. split; [reflexivity|exact Ew]. }
-    destruct (Z.eq_dec c 92) as [->|N92].
-    { destruct rest as [|e r1]; [discriminate|].
-      destruct (Z.eq_dec e 117) as [->|N117].
-      - destruct (Nat.lt_ge_cases (length r1) 4) as [Hs|Hl].
-        { rewrite str_loop_u_short in H by exact Hs. discriminate. }
-        destruct r1 as [|h1 [|h2 [|h3 [|h4 r2]]]]; try (simpl in Hl; lia).
-        rewrite str_loop_u in H. destruct (getu4 h1 h2 h3 h4) as [rr|]; [|discriminate].
-        destruct (is_surrogate rr).
-        + destruct (pair_result r2 rr) as [[cp r3]|] eqn:Ep.
-          * destruct (pair_result_some_inv _ _ _ _ Ep) as [a [b [c [d [E2 _]]]]]. subst r2.
-            destruct (pre_some_inv _ _ _ H) as [s' [Hs' _]].
-            apply (Hrec r3 0%nat s' ltac:(simpl; lia) Hs' [92; 117; h1; h2; h3; h4; 92; 117; a; b; c; d] eq_refl).
-          * destruct (pre_some_inv _ _ _ H) as [s' [Hs' _]].
-            apply (Hrec r2 0%nat s' ltac:(simpl; lia) Hs' [92; 117; h1; h2; h3; h4] eq_refl).
-        + destruct (pre_some_inv _ _ _ H) as [s' [Hs' _]].
-          apply (Hrec r2 0%nat s' ltac:(simpl; lia) Hs' [92; 117; h1; h2; h3; h4] eq_refl).
-      - rewrite str_loop_esc in H by exact N117. destruct (simple_escape e); [|discriminate].
-        destruct (pre_some_inv _ _ _ H) as [s' [Hs' _]].
-        apply (Hrec r1 0%nat s' ltac:(simpl; lia) Hs' [92; e] eq_refl). }
-    destruct (Z.ltb_spec c 32) as [L32|G32].
-    { cbn [str_loop] in H.
-      replace (c =? 34) with false in H by (symmetry; apply Z.eqb_neq; exact N34).
-      replace (c =? 92) with false in H by (symmetry; apply Z.eqb_neq; exact N92).
-      replace (c <? 32) with true in H by (symmetry; apply Z.ltb_lt; exact L32). discriminate. }
-    destruct (Z.ltb_spec c 128) as [L128|G128].
-    { rewrite str_loop_ascii in H by lia. destruct (pre_some_inv _ _ _ H) as [s' [Hs' _]].
-      apply (Hrec rest 0%nat s' ltac:(simpl; lia) Hs' [c] eq_refl). }
-    rewrite str_loop_high in H by exact G128.
-    destruct (go_rune_len (c :: rest)) as [|k].
-    + destruct (pre_some_inv _ _ _ H) as [s' [Hs' _]].
-      apply (Hrec rest 0%nat s' ltac:(simpl; lia) Hs' [c] eq_refl).
-    + destruct (pre_some_inv _ _ _ H) as [s' [Hs' _]].
-      apply (Hrec rest k s' ltac:(simpl; lia) Hs' [c] eq_refl).
-  - cbn [str_loop] in H. destruct (pre_some_inv _ _ _ H) as [s' [Hs' _]].
-    apply (Hrec rest p s' ltac:(simpl; lia) Hs' [c] eq_refl).
+  intro H. unfold utf8_valid. rewrite <- (app_nil_r l). rewrite utf8_valid_ascii_list by exact H. reflexivity.
 Qed.
 
-Lemma json_string_decode_ends tb s : json_string_decode tb = Some s ->
-  exists pfx w, tb = pfx ++ 34 :: w /\ forallb js_space w = true.
+Lemma item_valid i : item_ok i -> utf8_valid (item_bytes i) = true.
 Proof.
-  unfold json_string_decode. destruct tb as [|q r]; [discriminate|].
-  intro H. assert (H' : str_loop r 0%nat = Some s).
-  { destruct q as [|p|p]; try discriminate. repeat (destruct p as [p|p|]; try discriminate). exact H. }
-  destruct (str_loop_ends _ _ _ H') as [pfx [w [E Hw]]].
-  exists (q :: pfx), w. split; [rewrite E; reflexivity|exact Hw].
+  destruct i as [bs|c|h1 h2 h3 h4]; simpl; intro H.
+  - destruct H as [b Hb _ _|bs' Hm].
+    + apply ascii_valid. repeat constructor. lia.
+    + unfold utf8_valid. rewrite <- (app_nil_r bs'). rewrite (utf8_valid_multi _ _ Hm). reflexivity.
+  - apply ascii_valid. repeat constructor; unfold esc_letter in H; lia.
+  - destruct H as [H1 [H2 [H3 H4]]]. apply ascii_valid.
+    repeat constructor; try (apply hexdig_ascii; assumption); lia.
+Qed.
+
+Lemma items_valid items : Forall item_ok items -> utf8_valid (flat_map item_bytes items) = true.
+Proof.
+  induction 1 as [|i items Hi _ IH]; [reflexivity|]. cbn [flat_map].
+  apply utf8_valid_app; [apply item_valid; exact Hi|exact IH].
+Qed.
+
+Lemma StringLit_valid bs s : StringLit bs s -> utf8_valid bs = true.
+Proof.
+  intros [items Hi]. change (34 :: flat_map item_bytes items ++ [34]) with ([34] ++ flat_map item_bytes items ++ [34]).
+  apply utf8_valid_app; [reflexivity|]. apply utf8_valid_app; [apply items_valid; exact Hi|reflexivity].
 Qed.
 
 (* ================================================================================== *)
@@ -1046,7 +1014,8 @@ Inductive TokV : list jtoken -> jvalue -> Prop :=
 | TV_false t : tty t = TKeyword -> tbytes t = kw_false -> TokV [t] (JBool false)
 | TV_num t m e : tty t = TNumber -> json_number_ok (tbytes t) = true ->
     number_value (tbytes t) = (m, e) -> TokV [t] (JNum m e)
-| TV_str t s : tty t = TString -> json_string_decode (tbytes t) = Some s -> TokV [t] (JStr s)
+| TV_str t s : tty t = TString -> json_string_decode (tbytes t) = Some s ->
+    utf8_valid (tbytes t) = true -> TokV [t] (JStr s)
 | TV_arr0 o c : tty o = TBrackO -> tty c = TBrackC -> TokV [o; c] (JArr [])
 | TV_arr o ts vs : tty o = TBrackO -> TokE ts vs -> TokV (o :: ts) (JArr vs)
 | TV_obj0 o c : tty o = TBraceO -> tty c = TBraceC -> TokV [o; c] (JObj [])
@@ -1057,9 +1026,9 @@ with TokE : list jtoken -> list jvalue -> Prop :=
     TokE (ts ++ cm :: rest) (v :: vs)
 with TokM : list jtoken -> list (list Z * jvalue) -> Prop :=
 | TM_one kt k col ts v c : tty kt = TString -> json_string_decode (tbytes kt) = Some k ->
-    tty col = TColon -> TokV ts v -> tty c = TBraceC -> TokM (kt :: col :: ts ++ [c]) [(k, v)]
+    utf8_valid (tbytes kt) = true -> tty col = TColon -> TokV ts v -> tty c = TBraceC -> TokM (kt :: col :: ts ++ [c]) [(k, v)]
 | TM_cons kt k col ts v cm rest ms : tty kt = TString -> json_string_decode (tbytes kt) = Some k ->
-    tty col = TColon -> TokV ts v -> tty cm = TComma -> TokM rest ms ->
+    utf8_valid (tbytes kt) = true -> tty col = TColon -> TokV ts v -> tty cm = TComma -> TokM rest ms ->
     TokM (kt :: col :: ts ++ cm :: rest) ((k, v) :: ms).
 
 Scheme TokV_mut := Minimality for TokV Sort Prop
@@ -1115,10 +1084,10 @@ Lemma vtype_not ty : vtype ty -> ty <> TBrackC /\ ty <> TBraceC /\ ty <> TEOF.
 Proof. unfold vtype. intro H. repeat split; intro E; subst; destruct H as [H|[H|[H|[H|H]]]]; discriminate. Qed.
 
 Lemma parse_value_string f t r s : tty t = TString -> json_string_decode (tbytes t) = Some s ->
-  parse_value (S f) (t :: r) = Res (JStr s) [] r.
+  utf8_valid (tbytes t) = true -> parse_value (S f) (t :: r) = Res (JStr s) [] r.
 Proof.
-  intros Ht Hd. cbn [parse_value]. rewrite Ht. unfold parse_string.
-  rewrite read_cons by (rewrite Ht; discriminate). rewrite Hd. reflexivity.
+  intros Ht Hd Hv. cbn [parse_value]. rewrite Ht. unfold parse_string.
+  rewrite read_cons by (rewrite Ht; discriminate). rewrite Hd, Hv. reflexivity.
 Qed.
 
 Lemma parse_complete :
@@ -1142,9 +1111,8 @@ Proof.
   - (* number *) intros t m e Ht Hok Hval more f Hn Hf. destruct f as [|f]; [simpl in Hf; lia|].
     cbn [app parse_value]. rewrite Ht. unfold parse_number. rewrite read_cons by (rewrite Ht; discriminate).
     rewrite Hok. apply nums_ok_cons in Hn. rewrite (proj1 Hn Ht). rewrite Hval. reflexivity.
-  - (* string *) intros t s Ht Hd more f _ Hf. destruct f as [|f]; [simpl in Hf; lia|].
-    cbn [app parse_value]. rewrite Ht. unfold parse_string. rewrite read_cons by (rewrite Ht; discriminate).
-    rewrite Hd. reflexivity.
+  - (* string *) intros t s Ht Hd Hu more f _ Hf. destruct f as [|f]; [simpl in Hf; lia|].
+    cbn [app]. apply parse_value_string; assumption.
   - (* [] *) intros o c Ho Hc more f _ Hf. destruct f as [|f]; [simpl in Hf; lia|].
     cbn [app parse_value]. rewrite Ho. unfold parse_array. rewrite read_cons by (rewrite Ho; discriminate).
     cbn [arr_loop]. rewrite Hc. rewrite jtype_eqb_refl. rewrite read_cons by (rewrite Hc; discriminate).
@@ -1181,25 +1149,25 @@ Proof.
     rewrite (IHe more f g (acc ++ [v])); [|apply Hn2|lia|lia].
     rewrite <- app_assoc. reflexivity.
   - (* last member *)
-    intros kt k col ts v c Hkt Hk Hcol Hv IH Hc more f g acc Hn Hf Hg. simpl in Hf, Hg.
+    intros kt k col ts v c Hkt Hk Hku Hcol Hv IH Hc more f g acc Hn Hf Hg. simpl in Hf, Hg.
     rewrite app_length in Hf, Hg. simpl in Hf, Hg.
     destruct g as [|g]; [lia|]. destruct f as [|f']; [lia|].
     apply nums_ok_cons in Hn. destruct Hn as [_ Hn]. apply nums_ok_cons in Hn. destruct Hn as [_ Hn].
     apply nums_ok_app in Hn. destruct Hn as [Hn1 _].
     cbn [app obj_loop]. rewrite Hkt. replace (jtype_eqb TString TBraceC) with false by reflexivity.
-    rewrite (parse_value_string f' kt _ k Hkt Hk). cbn [app]. rewrite read_cons by (rewrite Hcol; discriminate).
+    rewrite (parse_value_string f' kt _ k Hkt Hk Hku). cbn [app]. rewrite read_cons by (rewrite Hcol; discriminate).
     rewrite Hcol. rewrite jtype_eqb_refl. cbn [negb].
     rewrite <- app_assoc. rewrite (IH _ (S f') Hn1) by lia. cbn [app]. rewrite Hc.
     rewrite read_cons by (rewrite Hc; discriminate). reflexivity.
   - (* more members *)
-    intros kt k col ts v cm rest ms Hkt Hk Hcol Hv IHv Hcm Hm IHm more f g acc Hn Hf Hg. simpl in Hf, Hg.
+    intros kt k col ts v cm rest ms Hkt Hk Hku Hcol Hv IHv Hcm Hm IHm more f g acc Hn Hf Hg. simpl in Hf, Hg.
     rewrite app_length in Hf, Hg. simpl in Hf, Hg.
     destruct g as [|g]; [lia|]. destruct f as [|f']; [lia|].
     apply nums_ok_cons in Hn. destruct Hn as [_ Hn]. apply nums_ok_cons in Hn. destruct Hn as [_ Hn].
     apply nums_ok_app in Hn. destruct Hn as [Hn1 Hn2]. apply nums_ok_cons in Hn2.
     destruct (TokM_head _ _ Hm) as [t1 [r1 [E1 Ht1]]].
     cbn [app obj_loop]. rewrite Hkt. replace (jtype_eqb TString TBraceC) with false by reflexivity.
-    rewrite (parse_value_string f' kt _ k Hkt Hk). cbn [app]. rewrite read_cons by (rewrite Hcol; discriminate).
+    rewrite (parse_value_string f' kt _ k Hkt Hk Hku). cbn [app]. rewrite read_cons by (rewrite Hcol; discriminate).
     rewrite Hcol. rewrite jtype_eqb_refl. cbn [negb].
     rewrite <- app_assoc. rewrite (IHv _ (S f') Hn1) by lia. cbn [app]. rewrite Hcm.
     rewrite read_cons by (rewrite Hcm; discriminate). rewrite E1 at 1. cbn [app].
@@ -1372,6 +1340,7 @@ Proof.
     apply wrap_invalid_res in H. destruct H as [o [H ->]]. unfold parse_string in H.
     rewrite read_cons in H by (rewrite Et; discriminate).
     destruct (json_string_decode (tbytes tok)) as [s|] eqn:Ed; [|discriminate].
+    destruct (utf8_valid (tbytes tok)) eqn:Eu; cbn [negb] in H; [|discriminate].
     inversion H; subst. exists [tok]. split; [reflexivity|apply TV_str; assumption].
   - (* number *)
     apply wrap_invalid_res in H. destruct H as [o [H ->]]. unfold parse_number in H.
@@ -1458,35 +1427,35 @@ Qed.
 Ltac zl := repeat (first [rewrite zlen_app | rewrite zlen_cons | rewrite zlen_nil]); lia.
 
 Lemma scan_complete :
-  (forall bs v, Value bs v -> forall rest off f tsr, follow_ok rest -> has_prepend (bs ++ rest) = false ->
+  (forall bs v, Value bs v -> forall rest off f tsr, follow_ok rest ->
      jscan_fuel f (off + zlen bs) rest = Some tsr ->
      exists ts f', jscan_fuel f' off (bs ++ rest) = Some (ts ++ tsr) /\ TokV ts v) /\
-  (forall bs vs, Elements bs vs -> forall rest off f tsr, has_prepend (bs ++ 93 :: rest) = false ->
+  (forall bs vs, Elements bs vs -> forall rest off f tsr,
      jscan_fuel f (off + zlen bs + 1) rest = Some tsr ->
      exists ts f', jscan_fuel f' off (bs ++ 93 :: rest) = Some (ts ++ tsr) /\ TokE ts vs) /\
-  (forall bs ms, Members bs ms -> forall rest off f tsr, has_prepend (bs ++ 125 :: rest) = false ->
+  (forall bs ms, Members bs ms -> forall rest off f tsr,
      jscan_fuel f (off + zlen bs + 1) rest = Some tsr ->
      exists ts f', jscan_fuel f' off (bs ++ 125 :: rest) = Some (ts ++ tsr) /\ TokM ts ms).
 Proof.
   apply json_mutind.
   - (* null *)
-    intros rest off f tsr Hfo _ Hs. destruct (follow_heads _ Hfo) as [_ Hk].
+    intros rest off f tsr Hfo Hs. destruct (follow_heads _ Hfo) as [_ Hk].
     eexists [_], (S f). split.
     + apply (scan_token _ TKeyword kw_null rest); try exact Hs; try reflexivity.
       apply (next_token_keyword 110 [117; 108; 108]); [lia|reflexivity|exact Hk].
     + apply TV_null; reflexivity.
-  - intros rest off f tsr Hfo _ Hs. destruct (follow_heads _ Hfo) as [_ Hk].
+  - intros rest off f tsr Hfo Hs. destruct (follow_heads _ Hfo) as [_ Hk].
     eexists [_], (S f). split.
     + apply (scan_token _ TKeyword kw_true rest); try exact Hs; try reflexivity.
       apply (next_token_keyword 116 [114; 117; 101]); [lia|reflexivity|exact Hk].
     + apply TV_true; reflexivity.
-  - intros rest off f tsr Hfo _ Hs. destruct (follow_heads _ Hfo) as [_ Hk].
+  - intros rest off f tsr Hfo Hs. destruct (follow_heads _ Hfo) as [_ Hk].
     eexists [_], (S f). split.
     + apply (scan_token _ TKeyword kw_false rest); try exact Hs; try reflexivity.
       apply (next_token_keyword 102 [97; 108; 115; 101]); [lia|reflexivity|exact Hk].
     + apply TV_false; reflexivity.
   - (* number *)
-    intros bs m e Hn rest off f tsr Hfo _ Hs. destruct (follow_heads _ Hfo) as [Hnb _].
+    intros bs m e Hn rest off f tsr Hfo Hs. destruct (follow_heads _ Hfo) as [Hnb _].
     pose proof (Number_bytes _ _ _ Hn) as Hb. pose proof (value_head_nows _ _ rest (V_num _ _ _ Hn)) as Hh.
     destruct (Number_head _ _ _ Hn) as [b [r [E Hb0]]].
     eexists [_], (S f). split.
@@ -1494,17 +1463,16 @@ Proof.
       subst bs. apply next_token_number; [unfold digit in Hb0; tauto|exact Hb|exact Hnb].
     + apply TV_num; [reflexivity|apply (json_number_ok_complete _ _ _ Hn)|apply number_value_complete; exact Hn].
   - (* string *)
-    intros bs s Hstr rest off f tsr _ Hp Hs.
+    intros bs s Hstr rest off f tsr _ Hs.
     pose proof (string_head_nows _ _ rest Hstr) as Hh. pose proof (json_string_decode_complete _ _ Hstr) as Hd.
+    pose proof (StringLit_valid _ _ Hstr) as Hu.
     destruct Hstr as [items Hi].
     eexists [_], (S f). split.
     + apply (scan_token _ TString (34 :: flat_map item_bytes items ++ [34]) rest); try assumption; try reflexivity; try eassumption.
-      apply next_token_string; [exact Hi|].
-      cbn [app] in Hp. rewrite <- app_assoc in Hp. cbn [app] in Hp.
-      destruct (has_prepend_cons _ _ Hp) as [_ Hp']. exact Hp'.
-    + apply TV_str; [reflexivity|exact Hd].
+      apply next_token_string; exact Hi.
+    + apply TV_str; [reflexivity|exact Hd|exact Hu].
   - (* [] *)
-    intros w Hw rest off f tsr _ _ Hs.
+    intros w Hw rest off f tsr _ Hs.
     eexists [_; _], (S (S f)). split.
     + cbn [app]. rewrite <- app_assoc. cbn [app].
       apply (scan_punct 91 TBrackO); [reflexivity|reflexivity|].
@@ -1513,16 +1481,15 @@ Proof.
       replace (off + 1 + zlen w + 1) with (off + zlen (91 :: w ++ [93])) by zl. exact Hs.
     + apply TV_arr0; reflexivity.
   - (* [ ... ] *)
-    intros bs vs He IH rest off f tsr _ Hp Hs.
+    intros bs vs He IH rest off f tsr _ Hs.
     cbn [app] in *. rewrite <- app_assoc in *. cbn [app] in *.
-    destruct (has_prepend_cons _ _ Hp) as [_ Hp'].
-    destruct (IH rest (off + 1) f tsr Hp') as [ts [f' [H1 H2]]].
+    destruct (IH rest (off + 1) f tsr) as [ts [f' [H1 H2]]].
     { replace (off + 1 + zlen bs + 1) with (off + zlen (91 :: bs ++ [93])) by zl. exact Hs. }
     eexists (_ :: ts), (S f'). split.
     + cbn [app]. apply (scan_punct 91 TBrackO); [reflexivity|reflexivity|exact H1].
     + apply TV_arr; [reflexivity|exact H2].
   - (* {} *)
-    intros w Hw rest off f tsr _ _ Hs.
+    intros w Hw rest off f tsr _ Hs.
     eexists [_; _], (S (S f)). split.
     + cbn [app]. rewrite <- app_assoc. cbn [app].
       apply (scan_punct 123 TBraceO); [reflexivity|reflexivity|].
@@ -1531,16 +1498,15 @@ Proof.
       replace (off + 1 + zlen w + 1) with (off + zlen (123 :: w ++ [125])) by zl. exact Hs.
     + apply TV_obj0; reflexivity.
   - (* { ... } *)
-    intros bs ms Hm IH rest off f tsr _ Hp Hs.
+    intros bs ms Hm IH rest off f tsr _ Hs.
     cbn [app] in *. rewrite <- app_assoc in *. cbn [app] in *.
-    destruct (has_prepend_cons _ _ Hp) as [_ Hp'].
-    destruct (IH rest (off + 1) f tsr Hp') as [ts [f' [H1 H2]]].
+    destruct (IH rest (off + 1) f tsr) as [ts [f' [H1 H2]]].
     { replace (off + 1 + zlen bs + 1) with (off + zlen (123 :: bs ++ [125])) by zl. exact Hs. }
     eexists (_ :: ts), (S f'). split.
     + cbn [app]. apply (scan_punct 123 TBraceO); [reflexivity|reflexivity|exact H1].
     + apply TV_obj; [reflexivity|exact H2].
   - (* one element *)
-    intros w1 bs w2 v Hw1 Hv IH Hw2 rest off f tsr Hp Hs.
+    intros w1 bs w2 v Hw1 Hv IH Hw2 rest off f tsr Hs.
     rewrite <- !app_assoc in *.
     assert (S3 : jscan_fuel (S f) (off + zlen w1 + zlen bs + zlen w2) (93 :: rest)
                  = Some (mkTok TBrackC [93] (off + zlen w1 + zlen bs + zlen w2) (off + zlen w1 + zlen bs + zlen w2 + 1) :: tsr)).
@@ -1548,31 +1514,27 @@ Proof.
       replace (off + zlen w1 + zlen bs + zlen w2 + 1) with (off + zlen (w1 ++ bs ++ w2) + 1) by zl. exact Hs. }
     assert (S2 := scan_ws w2 (93 :: rest) (off + zlen w1 + zlen bs) (S f) _ _ Hw2 eq_refl eq_refl S3).
     assert (HF : follow_ok (w2 ++ 93 :: rest)) by (apply follow_ws; [exact Hw2|simpl; tauto]).
-    assert (HP : has_prepend (bs ++ w2 ++ 93 :: rest) = false) by (eapply has_prepend_app; exact Hp).
-    destruct (IH _ _ _ _ HF HP S2) as [ts [f' [H1 H2]]].
+    destruct (IH _ _ _ _ HF S2) as [ts [f' [H1 H2]]].
     exists (ts ++ [mkTok TBrackC [93] (off + zlen w1 + zlen bs + zlen w2) (off + zlen w1 + zlen bs + zlen w2 + 1)]), f'.
     split; [|apply TE_one; [exact H2|reflexivity]].
     rewrite <- app_assoc. cbn [app].
     apply (scan_ws w1 _ off f' _ _ Hw1 (value_head_nows _ _ _ Hv) eq_refl H1).
   - (* more elements *)
-    intros w1 bs w2 v erest vs Hw1 Hv IHv Hw2 He IHe rest off f tsr Hp Hs.
+    intros w1 bs w2 v erest vs Hw1 Hv IHv Hw2 He IHe rest off f tsr Hs.
     rewrite <- !app_assoc in *. cbn [app] in *. rewrite <- ?app_assoc in *.
-    assert (Hp2 : has_prepend (erest ++ 93 :: rest) = false).
-    { apply (has_prepend_app (w1 ++ bs ++ w2 ++ [44])). repeat (first [rewrite <- app_assoc | progress cbn [app]]). exact Hp. }
-    destruct (IHe rest (off + zlen w1 + zlen bs + zlen w2 + 1) f tsr Hp2) as [tse [fe [E1 E2]]].
+    destruct (IHe rest (off + zlen w1 + zlen bs + zlen w2 + 1) f tsr) as [tse [fe [E1 E2]]].
     { replace (off + zlen w1 + zlen bs + zlen w2 + 1 + zlen erest + 1)
         with (off + zlen (w1 ++ bs ++ w2 ++ 44 :: erest) + 1) by zl. exact Hs. }
     assert (S3 := scan_punct 44 TComma _ (off + zlen w1 + zlen bs + zlen w2) fe _ _ eq_refl eq_refl E1).
     assert (S2 := scan_ws w2 (44 :: erest ++ 93 :: rest) (off + zlen w1 + zlen bs) (S fe) _ _ Hw2 eq_refl eq_refl S3).
     assert (HF : follow_ok (w2 ++ 44 :: erest ++ 93 :: rest)) by (apply follow_ws; [exact Hw2|simpl; tauto]).
-    assert (HP : has_prepend (bs ++ w2 ++ 44 :: erest ++ 93 :: rest) = false) by (eapply has_prepend_app; exact Hp).
-    destruct (IHv _ _ _ _ HF HP S2) as [ts [f' [H1 H2]]].
+    destruct (IHv _ _ _ _ HF S2) as [ts [f' [H1 H2]]].
     eexists (ts ++ _ :: tse), f'. split.
     + rewrite <- app_assoc. cbn [app].
       apply (scan_ws w1 _ off f' _ _ Hw1 (value_head_nows _ _ _ Hv) eq_refl H1).
     + apply TE_cons; [exact H2|reflexivity|exact E2].
   - (* one member *)
-    intros w1 kb k w2 w3 bs w4 v Hw1 Hk Hw2 Hw3 Hv IH Hw4 rest off f tsr Hp Hs.
+    intros w1 kb k w2 w3 bs w4 v Hw1 Hk Hw2 Hw3 Hv IH Hw4 rest off f tsr Hs.
     rewrite <- !app_assoc in *. cbn [app] in *. rewrite <- ?app_assoc in *.
     set (o1 := off + zlen w1). set (o2 := o1 + zlen kb). set (o3 := o2 + zlen w2).
     set (o4 := o3 + 1 + zlen w3). set (o5 := o4 + zlen bs). set (o6 := o5 + zlen w4).
@@ -1582,60 +1544,45 @@ Proof.
       exact Hs. }
     assert (S5 := scan_ws w4 (125 :: rest) o5 (S f) _ _ Hw4 eq_refl eq_refl S6).
     assert (HF : follow_ok (w4 ++ 125 :: rest)) by (apply follow_ws; [exact Hw4|simpl; tauto]).
-    assert (HP : has_prepend (bs ++ w4 ++ 125 :: rest) = false).
-    { apply (has_prepend_app (w1 ++ kb ++ w2 ++ 58 :: w3)). repeat (first [rewrite <- app_assoc | progress cbn [app]]). exact Hp. }
-    destruct (IH _ _ _ _ HF HP S5) as [ts [f1 [H1 H2]]].
+    destruct (IH _ _ _ _ HF S5) as [ts [f1 [H1 H2]]].
     assert (S4 := scan_ws w3 _ (o3 + 1) f1 _ _ Hw3 (value_head_nows _ _ _ Hv) eq_refl H1).
     assert (S3 := scan_punct 58 TColon _ o3 f1 _ _ eq_refl eq_refl S4).
     assert (S2 := scan_ws w2 (58 :: w3 ++ bs ++ w4 ++ 125 :: rest) o2 (S f1) _ _ Hw2 eq_refl eq_refl S3).
-    pose proof (json_string_decode_complete _ _ Hk) as Hd.
+    pose proof (json_string_decode_complete _ _ Hk) as Hd. pose proof (StringLit_valid _ _ Hk) as Hu.
     pose proof (string_head_nows _ _ (w2 ++ 58 :: w3 ++ bs ++ w4 ++ 125 :: rest) Hk) as Hh.
-    assert (Hpk : has_prepend (kb ++ w2 ++ 58 :: w3 ++ bs ++ w4 ++ 125 :: rest) = false)
-      by (eapply has_prepend_app; exact Hp).
     destruct Hk as [items Hi].
     assert (S1 : jscan_fuel (S (S f1)) o1 ((34 :: flat_map item_bytes items ++ [34]) ++ w2 ++ 58 :: w3 ++ bs ++ w4 ++ 125 :: rest)
                  = Some (mkTok TString (34 :: flat_map item_bytes items ++ [34]) o1 o2 :: mkTok TColon [58] o3 (o3 + 1) :: ts ++ mkTok TBraceC [125] o6 (o6 + 1) :: tsr)).
     { apply (scan_token _ TString (34 :: flat_map item_bytes items ++ [34]) (w2 ++ 58 :: w3 ++ bs ++ w4 ++ 125 :: rest)); try assumption; try reflexivity; try eassumption.
-      apply next_token_string; [exact Hi|].
-      cbn [app] in Hpk. rewrite <- app_assoc in Hpk. cbn [app] in Hpk.
-      destruct (has_prepend_cons _ _ Hpk) as [_ Hp']. exact Hp'. }
+      apply next_token_string; exact Hi. }
     eexists (_ :: _ :: ts ++ [_]), (S (S f1)). split.
     + apply (scan_ws w1 _ off _ _ o1 Hw1 Hh eq_refl).
       repeat (first [rewrite <- app_assoc | progress cbn [app]]).
       repeat (first [rewrite <- app_assoc in S1 | progress cbn [app] in S1]). exact S1.
     + apply TM_one; try reflexivity; assumption.
   - (* more members *)
-    intros w1 kb k w2 w3 bs w4 v mrest ms Hw1 Hk Hw2 Hw3 Hv IHv Hw4 Hm IHm rest off f tsr Hp Hs.
+    intros w1 kb k w2 w3 bs w4 v mrest ms Hw1 Hk Hw2 Hw3 Hv IHv Hw4 Hm IHm rest off f tsr Hs.
     rewrite <- !app_assoc in *. cbn [app] in *. rewrite <- ?app_assoc in *. cbn [app] in *. rewrite <- ?app_assoc in *.
     set (o1 := off + zlen w1). set (o2 := o1 + zlen kb). set (o3 := o2 + zlen w2).
     set (o4 := o3 + 1 + zlen w3). set (o5 := o4 + zlen bs). set (o6 := o5 + zlen w4).
-    assert (Hp2 : has_prepend (mrest ++ 125 :: rest) = false).
-    { apply (has_prepend_app (w1 ++ kb ++ w2 ++ 58 :: w3 ++ bs ++ w4 ++ [44])).
-      repeat (first [rewrite <- app_assoc | progress cbn [app]]). exact Hp. }
-    destruct (IHm rest (o6 + 1) f tsr Hp2) as [tsm [fm [E1 E2]]].
+    destruct (IHm rest (o6 + 1) f tsr) as [tsm [fm [E1 E2]]].
     { replace (o6 + 1 + zlen mrest + 1)
         with (off + zlen (w1 ++ kb ++ w2 ++ 58 :: w3 ++ bs ++ w4 ++ 44 :: mrest) + 1)
         by (unfold o6, o5, o4, o3, o2, o1; zl). exact Hs. }
     assert (S6 := scan_punct 44 TComma _ o6 fm _ _ eq_refl eq_refl E1).
     assert (S5 := scan_ws w4 (44 :: mrest ++ 125 :: rest) o5 (S fm) _ _ Hw4 eq_refl eq_refl S6).
     assert (HF : follow_ok (w4 ++ 44 :: mrest ++ 125 :: rest)) by (apply follow_ws; [exact Hw4|simpl; tauto]).
-    assert (HP : has_prepend (bs ++ w4 ++ 44 :: mrest ++ 125 :: rest) = false).
-    { apply (has_prepend_app (w1 ++ kb ++ w2 ++ 58 :: w3)). repeat (first [rewrite <- app_assoc | progress cbn [app]]). exact Hp. }
-    destruct (IHv _ _ _ _ HF HP S5) as [ts [f1 [H1 H2]]].
+    destruct (IHv _ _ _ _ HF S5) as [ts [f1 [H1 H2]]].
     assert (S4 := scan_ws w3 _ (o3 + 1) f1 _ _ Hw3 (value_head_nows _ _ _ Hv) eq_refl H1).
     assert (S3 := scan_punct 58 TColon _ o3 f1 _ _ eq_refl eq_refl S4).
     assert (S2 := scan_ws w2 (58 :: w3 ++ bs ++ w4 ++ 44 :: mrest ++ 125 :: rest) o2 (S f1) _ _ Hw2 eq_refl eq_refl S3).
-    pose proof (json_string_decode_complete _ _ Hk) as Hd.
+    pose proof (json_string_decode_complete _ _ Hk) as Hd. pose proof (StringLit_valid _ _ Hk) as Hu.
     pose proof (string_head_nows _ _ (w2 ++ 58 :: w3 ++ bs ++ w4 ++ 44 :: mrest ++ 125 :: rest) Hk) as Hh.
-    assert (Hpk : has_prepend (kb ++ w2 ++ 58 :: w3 ++ bs ++ w4 ++ 44 :: mrest ++ 125 :: rest) = false)
-      by (eapply has_prepend_app; exact Hp).
     destruct Hk as [items Hi].
     assert (S1 : jscan_fuel (S (S f1)) o1 ((34 :: flat_map item_bytes items ++ [34]) ++ w2 ++ 58 :: w3 ++ bs ++ w4 ++ 44 :: mrest ++ 125 :: rest)
                  = Some (mkTok TString (34 :: flat_map item_bytes items ++ [34]) o1 o2 :: mkTok TColon [58] o3 (o3 + 1) :: ts ++ mkTok TComma [44] o6 (o6 + 1) :: tsm ++ tsr)).
     { apply (scan_token _ TString (34 :: flat_map item_bytes items ++ [34]) (w2 ++ 58 :: w3 ++ bs ++ w4 ++ 44 :: mrest ++ 125 :: rest)); try assumption; try reflexivity; try eassumption.
-      apply next_token_string; [exact Hi|].
-      cbn [app] in Hpk. rewrite <- app_assoc in Hpk. cbn [app] in Hpk.
-      destruct (has_prepend_cons _ _ Hpk) as [_ Hp']. exact Hp'. }
+      apply next_token_string; exact Hi. }
     eexists (_ :: _ :: ts ++ _ :: tsm), (S (S f1)). split.
     + apply (scan_ws w1 _ off _ _ o1 Hw1 Hh eq_refl).
       repeat (first [rewrite <- app_assoc | progress cbn [app]]).
@@ -1661,14 +1608,13 @@ Proof.
 Qed.
 
 Theorem accept_complete_partial : forall bs v,
-  JsonText bs v -> has_prepend bs = false -> go_numbers_ok bs = true -> jparse bs = JRes v [].
+  JsonText bs v -> go_numbers_ok bs = true -> jparse bs = JRes v [].
 Proof.
-  intros bs v [w1 core w2 v' Hw1 Hv Hw2] Hp Hn.
+  intros bs v [w1 core w2 v' Hw1 Hv Hw2] Hn.
   assert (Se : jscan_fuel 1 (0 + zlen w1 + zlen core) w2 = Some [eof_tok (0 + zlen w1 + zlen core + zlen w2)]).
   { apply jscan_eof_ws. apply sc_WS_WS. exact Hw2. }
   assert (HF : follow_ok w2) by (destruct Hw2 as [|b w Hb _]; simpl; tauto).
-  assert (HP : has_prepend (core ++ w2) = false) by (eapply has_prepend_app; exact Hp).
-  destruct (proj1 scan_complete _ _ Hv w2 (0 + zlen w1) 1%nat _ HF HP Se) as [ts [f' [H1 H2]]].
+  destruct (proj1 scan_complete _ _ Hv w2 (0 + zlen w1) 1%nat _ HF Se) as [ts [f' [H1 H2]]].
   assert (S0 := scan_ws w1 _ 0 f' _ _ Hw1 (value_head_nows _ _ _ Hv) eq_refl H1).
   assert (Ej : jscan (w1 ++ core ++ w2) = ts ++ [eof_tok (0 + zlen w1 + zlen core + zlen w2)])
     by (eapply jscan_opt_of_fuel; exact S0).
@@ -1681,10 +1627,6 @@ Qed.
 
 (* ---- C3. accept_sound -------------------------------------------------------------- *)
 
-(* The property as stated: whatever is accepted is a JSON text. *)
-Definition accept_sound : Prop :=
-  forall bs v, jparse bs = JRes v [] -> exists v', JsonText bs v'.
-
 Lemma Tiled_cons_inv off bs t tsr : Tiled off bs (t :: tsr) -> tty t <> TEOF -> tty t <> TInvalid ->
   exists w rest, bs = w ++ tbytes t ++ rest /\ WS w /\ lex_ok (tty t) (tbytes t) /\ Tiled (tend t) rest tsr.
 Proof.
@@ -1692,16 +1634,6 @@ Proof.
   - exfalso. apply N1. reflexivity.
   - exfalso. apply N2. reflexivity.
   - exists w, rest. cbn [tbytes tty tend]. repeat split; try assumption. apply sc_WS_WS. assumption.
-Qed.
-
-Lemma WS_ascii w : WS w -> Forall (fun b => b < 128) w.
-Proof. unfold WS. apply Forall_impl. intros a H. unfold ws_byte in H. lia. Qed.
-
-Lemma valid_strip w tb rest : utf8_valid (w ++ tb ++ rest) = true ->
-  Forall (fun b => b < 128) w -> Forall (fun b => b < 128) tb -> utf8_valid rest = true.
-Proof.
-  unfold utf8_valid. intros H Hw Ht. rewrite utf8_valid_ascii_list in H by exact Hw.
-  rewrite utf8_valid_ascii_list in H by exact Ht. exact H.
 Qed.
 
 Lemma punct_byte b ty : punct_type b = Some ty -> b = jtype_code ty.
@@ -1714,159 +1646,128 @@ Qed.
 Definition is_punct (ty : jtype) : Prop :=
   ty = TBrackO \/ ty = TBrackC \/ ty = TBraceO \/ ty = TBraceC \/ ty = TComma \/ ty = TColon.
 
-Lemma tiled_punct off bs t tsr : Tiled off bs (t :: tsr) -> is_punct (tty t) -> utf8_valid bs = true ->
-  exists w bs', bs = w ++ jtype_code (tty t) :: bs' /\ WS w /\ Tiled (tend t) bs' tsr /\ utf8_valid bs' = true.
+Lemma tiled_punct off bs t tsr : Tiled off bs (t :: tsr) -> is_punct (tty t) ->
+  exists w bs', bs = w ++ jtype_code (tty t) :: bs' /\ WS w /\ Tiled (tend t) bs' tsr.
 Proof.
-  intros H Hp Hv.
+  intros H Hp.
   destruct (Tiled_cons_inv _ _ _ _ H) as [w [rest [E [Hw [Hl Ht]]]]];
     [destruct Hp as [->|[->|[->|[->|[->| ->]]]]]; discriminate
     |destruct Hp as [->|[->|[->|[->|[->| ->]]]]]; discriminate|].
   assert (Hb : exists b, tbytes t = [b] /\ punct_type b = Some (tty t))
     by (destruct Hp as [Hp|[Hp|[Hp|[Hp|[Hp|Hp]]]]]; rewrite Hp in *; exact Hl).
   destruct Hb as [b [Eb Hpb]]. apply punct_byte in Hpb. subst b. rewrite Eb in E.
-  exists w, rest. repeat split; try assumption.
-  rewrite E in Hv. apply (valid_strip _ _ _ Hv (WS_ascii _ Hw)).
-  constructor; [|constructor]. destruct Hp as [->|[->|[->|[->|[->| ->]]]]]; simpl; lia.
+  exists w, rest. repeat split; assumption.
 Qed.
 
-Lemma number_byte_ascii b : number_byte b = true -> b < 128.
+Lemma tiled_leaf off bs t tsr : Tiled off bs (t :: tsr) ->
+  tty t = TKeyword \/ tty t = TNumber \/ tty t = TString ->
+  exists w bs', bs = w ++ tbytes t ++ bs' /\ WS w /\ Tiled (tend t) bs' tsr.
 Proof.
-  unfold number_byte, sc_digit. intro H.
-  repeat (apply orb_true_iff in H; destruct H as [H|H]); try (apply Z.eqb_eq in H; lia).
-  apply andb_true_iff in H. destruct H as [_ H]. apply Z.leb_le in H. lia.
-Qed.
-
-Lemma tiled_ascii_leaf off bs t tsr : Tiled off bs (t :: tsr) ->
-  tty t = TKeyword \/ tty t = TNumber -> Forall (fun b => b < 128) (tbytes t) -> utf8_valid bs = true ->
-  exists w bs', bs = w ++ tbytes t ++ bs' /\ WS w /\ Tiled (tend t) bs' tsr /\ utf8_valid bs' = true.
-Proof.
-  intros H Hty Ha Hv.
+  intros H Hty.
   destruct (Tiled_cons_inv _ _ _ _ H) as [w [rest [E [Hw [Hl Ht]]]]];
-    [destruct Hty as [-> | ->]; discriminate|destruct Hty as [-> | ->]; discriminate|].
-  exists w, rest. repeat split; try assumption. rewrite E in Hv. apply (valid_strip _ _ _ Hv (WS_ascii _ Hw) Ha).
+    [destruct Hty as [-> |[-> | ->]]; discriminate|destruct Hty as [-> |[-> | ->]]; discriminate|].
+  exists w, rest. repeat split; assumption.
 Qed.
-
-Lemma js_space_ascii w : forallb js_space w = true -> Forall (fun b => b < 128) w.
-Proof. intro H. apply WS_ascii. apply js_space_WS. exact H. Qed.
 
 Lemma tiled_string off bs t tsr k : Tiled off bs (t :: tsr) -> tty t = TString ->
-  json_string_decode (tbytes t) = Some k -> utf8_valid bs = true ->
+  json_string_decode (tbytes t) = Some k -> utf8_valid (tbytes t) = true ->
   exists w core w' bs', bs = w ++ core ++ w' ++ bs' /\ WS w /\ WS w' /\ StringLit core k /\
-                        Tiled (tend t) bs' tsr /\ utf8_valid bs' = true.
+                        Tiled (tend t) bs' tsr.
 Proof.
   intros H Hty Hd Hv.
-  destruct (Tiled_cons_inv _ _ _ _ H) as [w [rest [E [Hw [Hl Ht]]]]]; [rewrite Hty; discriminate|rewrite Hty; discriminate|].
-  destruct (json_string_decode_ends _ _ Hd) as [pfx [ws [Etb Hws]]].
-  assert (Hv1 : utf8_valid (pfx ++ 34 :: ws ++ rest) = true).
-  { rewrite E, Etb in Hv. unfold utf8_valid in *. rewrite utf8_valid_ascii_list in Hv by (apply WS_ascii; exact Hw).
-    rewrite <- app_assoc in Hv. cbn [app] in Hv. exact Hv. }
-  destruct (utf8_valid_split pfx 34 (ws ++ rest) ltac:(lia) Hv1) as [Vp Vr].
-  assert (Vrest : utf8_valid rest = true).
-  { unfold utf8_valid in *. rewrite utf8_valid_ascii_list in Vr by (apply js_space_ascii; exact Hws). exact Vr. }
-  assert (Vtb : utf8_valid (tbytes t) = true).
-  { rewrite Etb. apply utf8_valid_app; [exact Vp|]. unfold utf8_valid.
-    rewrite <- (app_nil_r (34 :: ws)). rewrite utf8_valid_ascii_list; [reflexivity|].
-    constructor; [lia|apply js_space_ascii; exact Hws]. }
-  destruct (json_string_decode_sound _ _ Hd Vtb) as [core [w' [Ec [Hw' Hs]]]].
+  destruct (tiled_leaf _ _ _ _ H (or_intror (or_intror Hty))) as [w [rest [E [Hw Ht]]]].
+  destruct (json_string_decode_sound _ _ Hd Hv) as [core [w' [Ec [Hw' Hs]]]].
   exists w, core, w', rest. repeat split; try assumption.
   rewrite E, Ec. rewrite <- app_assoc. reflexivity.
 Qed.
 
-Lemma kw_ascii : Forall (fun b => b < 128) kw_null /\ Forall (fun b => b < 128) kw_true /\ Forall (fun b => b < 128) kw_false.
-Proof. repeat split; repeat constructor. Qed.
-
 Lemma tiled_sound :
-  (forall ts v, TokV ts v -> forall off bs tsr, Tiled off bs (ts ++ tsr) -> utf8_valid bs = true ->
+  (forall ts v, TokV ts v -> forall off bs tsr, Tiled off bs (ts ++ tsr) ->
      exists w core w' bs' off', bs = w ++ core ++ w' ++ bs' /\ WS w /\ WS w' /\ Value core v /\
-                                Tiled off' bs' tsr /\ utf8_valid bs' = true) /\
-  (forall ts vs, TokE ts vs -> forall off bs tsr, Tiled off bs (ts ++ tsr) -> utf8_valid bs = true ->
-     exists ebs bs' off', bs = ebs ++ 93 :: bs' /\ Elements ebs vs /\ Tiled off' bs' tsr /\ utf8_valid bs' = true) /\
-  (forall ts ms, TokM ts ms -> forall off bs tsr, Tiled off bs (ts ++ tsr) -> utf8_valid bs = true ->
-     exists mbs bs' off', bs = mbs ++ 125 :: bs' /\ Members mbs ms /\ Tiled off' bs' tsr /\ utf8_valid bs' = true).
+                                Tiled off' bs' tsr) /\
+  (forall ts vs, TokE ts vs -> forall off bs tsr, Tiled off bs (ts ++ tsr) ->
+     exists ebs bs' off', bs = ebs ++ 93 :: bs' /\ Elements ebs vs /\ Tiled off' bs' tsr) /\
+  (forall ts ms, TokM ts ms -> forall off bs tsr, Tiled off bs (ts ++ tsr) ->
+     exists mbs bs' off', bs = mbs ++ 125 :: bs' /\ Members mbs ms /\ Tiled off' bs' tsr).
 Proof.
   apply tok_mutind.
-  - (* null *) intros t Ht Hb off bs tsr HT Hv. cbn [app] in HT.
-    destruct (tiled_ascii_leaf _ _ _ _ HT (or_introl Ht)) as [w [bs' [E [Hw [HT' Hv']]]]];
-      [rewrite Hb; apply kw_ascii|exact Hv|].
+  - (* null *) intros t Ht Hb off bs tsr HT. cbn [app] in HT.
+    destruct (tiled_leaf _ _ _ _ HT (or_introl Ht)) as [w [bs' [E [Hw HT']]]].
     exists w, kw_null, [], bs', (tend t). rewrite Hb in E. repeat split; try assumption; [constructor|apply V_null].
-  - intros t Ht Hb off bs tsr HT Hv. cbn [app] in HT.
-    destruct (tiled_ascii_leaf _ _ _ _ HT (or_introl Ht)) as [w [bs' [E [Hw [HT' Hv']]]]];
-      [rewrite Hb; apply kw_ascii|exact Hv|].
+  - intros t Ht Hb off bs tsr HT. cbn [app] in HT.
+    destruct (tiled_leaf _ _ _ _ HT (or_introl Ht)) as [w [bs' [E [Hw HT']]]].
     exists w, kw_true, [], bs', (tend t). rewrite Hb in E. repeat split; try assumption; [constructor|apply V_true].
-  - intros t Ht Hb off bs tsr HT Hv. cbn [app] in HT.
-    destruct (tiled_ascii_leaf _ _ _ _ HT (or_introl Ht)) as [w [bs' [E [Hw [HT' Hv']]]]];
-      [rewrite Hb; apply kw_ascii|exact Hv|].
+  - intros t Ht Hb off bs tsr HT. cbn [app] in HT.
+    destruct (tiled_leaf _ _ _ _ HT (or_introl Ht)) as [w [bs' [E [Hw HT']]]].
     exists w, kw_false, [], bs', (tend t). rewrite Hb in E. repeat split; try assumption; [constructor|apply V_false].
-  - (* number *) intros t m e Ht Hok Hval off bs tsr HT Hv. cbn [app] in HT.
+  - (* number *) intros t m e Ht Hok Hval off bs tsr HT. cbn [app] in HT.
     destruct (json_number_ok_sound _ Hok) as [m' [e' Hn]].
     pose proof (number_value_complete _ _ _ Hn) as Hval'. rewrite Hval in Hval'. inversion Hval'; subst m' e'.
-    destruct (tiled_ascii_leaf _ _ _ _ HT (or_intror Ht)) as [w [bs' [E [Hw [HT' Hv']]]]]; [|exact Hv|].
-    { apply Forall_forall. intros b Hb. apply number_byte_ascii.
-      pose proof (Number_bytes _ _ _ Hn) as Hnb. rewrite forallb_forall in Hnb. apply Hnb. exact Hb. }
+    destruct (tiled_leaf _ _ _ _ HT (or_intror (or_introl Ht))) as [w [bs' [E [Hw HT']]]].
     exists w, (tbytes t), [], bs', (tend t). repeat split; try assumption; [constructor|apply V_num; exact Hn].
-  - (* string *) intros t s Ht Hd off bs tsr HT Hv. cbn [app] in HT.
-    destruct (tiled_string _ _ _ _ _ HT Ht Hd Hv) as [w [core [w' [bs' [E [Hw [Hw' [Hs [HT' Hv']]]]]]]]].
+  - (* string *) intros t s Ht Hd Hu off bs tsr HT. cbn [app] in HT.
+    destruct (tiled_string _ _ _ _ _ HT Ht Hd Hu) as [w [core [w' [bs' [E [Hw [Hw' [Hs HT']]]]]]]].
     exists w, core, w', bs', (tend t). repeat split; try assumption. apply V_str. exact Hs.
-  - (* [] *) intros o c Ho Hc off bs tsr HT Hv. cbn [app] in HT.
-    destruct (tiled_punct _ _ _ _ HT) as [w [bs1 [E1 [Hw [HT1 Hv1]]]]]; [rewrite Ho; unfold is_punct; tauto|exact Hv|].
-    destruct (tiled_punct _ _ _ _ HT1) as [w2 [bs2 [E2 [Hw2 [HT2 Hv2]]]]]; [rewrite Hc; unfold is_punct; tauto|exact Hv1|].
+  - (* [] *) intros o c Ho Hc off bs tsr HT. cbn [app] in HT.
+    destruct (tiled_punct _ _ _ _ HT) as [w [bs1 [E1 [Hw HT1]]]]; [rewrite Ho; unfold is_punct; tauto|].
+    destruct (tiled_punct _ _ _ _ HT1) as [w2 [bs2 [E2 [Hw2 HT2]]]]; [rewrite Hc; unfold is_punct; tauto|].
     rewrite Ho in E1. rewrite Hc in E2. cbn [jtype_code] in E1, E2.
     exists w, (91 :: w2 ++ [93]), [], bs2, (tend c). repeat split; try assumption; [|constructor|apply V_arr0; exact Hw2].
     rewrite E1, E2. cbn [app]. rewrite <- app_assoc. reflexivity.
-  - (* [ ... ] *) intros o ts vs Ho He IH off bs tsr HT Hv. cbn [app] in HT.
-    destruct (tiled_punct _ _ _ _ HT) as [w [bs1 [E1 [Hw [HT1 Hv1]]]]]; [rewrite Ho; unfold is_punct; tauto|exact Hv|].
-    destruct (IH _ _ _ HT1 Hv1) as [ebs [bs2 [off2 [E2 [Hel [HT2 Hv2]]]]]].
+  - (* [ ... ] *) intros o ts vs Ho He IH off bs tsr HT. cbn [app] in HT.
+    destruct (tiled_punct _ _ _ _ HT) as [w [bs1 [E1 [Hw HT1]]]]; [rewrite Ho; unfold is_punct; tauto|].
+    destruct (IH _ _ _ HT1) as [ebs [bs2 [off2 [E2 [Hel HT2]]]]].
     rewrite Ho in E1. cbn [jtype_code] in E1.
     exists w, (91 :: ebs ++ [93]), [], bs2, off2. repeat split; try assumption; [|constructor|apply V_arr; exact Hel].
     rewrite E1, E2. cbn [app]. rewrite <- app_assoc. reflexivity.
-  - (* {} *) intros o c Ho Hc off bs tsr HT Hv. cbn [app] in HT.
-    destruct (tiled_punct _ _ _ _ HT) as [w [bs1 [E1 [Hw [HT1 Hv1]]]]]; [rewrite Ho; unfold is_punct; tauto|exact Hv|].
-    destruct (tiled_punct _ _ _ _ HT1) as [w2 [bs2 [E2 [Hw2 [HT2 Hv2]]]]]; [rewrite Hc; unfold is_punct; tauto|exact Hv1|].
+  - (* {} *) intros o c Ho Hc off bs tsr HT. cbn [app] in HT.
+    destruct (tiled_punct _ _ _ _ HT) as [w [bs1 [E1 [Hw HT1]]]]; [rewrite Ho; unfold is_punct; tauto|].
+    destruct (tiled_punct _ _ _ _ HT1) as [w2 [bs2 [E2 [Hw2 HT2]]]]; [rewrite Hc; unfold is_punct; tauto|].
     rewrite Ho in E1. rewrite Hc in E2. cbn [jtype_code] in E1, E2.
     exists w, (123 :: w2 ++ [125]), [], bs2, (tend c). repeat split; try assumption; [|constructor|apply V_obj0; exact Hw2].
     rewrite E1, E2. cbn [app]. rewrite <- app_assoc. reflexivity.
-  - (* { ... } *) intros o ts ms Ho Hm IH off bs tsr HT Hv. cbn [app] in HT.
-    destruct (tiled_punct _ _ _ _ HT) as [w [bs1 [E1 [Hw [HT1 Hv1]]]]]; [rewrite Ho; unfold is_punct; tauto|exact Hv|].
-    destruct (IH _ _ _ HT1 Hv1) as [mbs [bs2 [off2 [E2 [Hmm [HT2 Hv2]]]]]].
+  - (* { ... } *) intros o ts ms Ho Hm IH off bs tsr HT. cbn [app] in HT.
+    destruct (tiled_punct _ _ _ _ HT) as [w [bs1 [E1 [Hw HT1]]]]; [rewrite Ho; unfold is_punct; tauto|].
+    destruct (IH _ _ _ HT1) as [mbs [bs2 [off2 [E2 [Hmm HT2]]]]].
     rewrite Ho in E1. cbn [jtype_code] in E1.
     exists w, (123 :: mbs ++ [125]), [], bs2, off2. repeat split; try assumption; [|constructor|apply V_obj; exact Hmm].
     rewrite E1, E2. cbn [app]. rewrite <- app_assoc. reflexivity.
-  - (* last element *) intros ts v c Hv IH Hc off bs tsr HT Hval. rewrite <- app_assoc in HT. cbn [app] in HT.
-    destruct (IH _ _ _ HT Hval) as [w [core [w' [bs1 [off1 [E1 [Hw [Hw' [Hcore [HT1 Hv1]]]]]]]]]].
-    destruct (tiled_punct _ _ _ _ HT1) as [w2 [bs2 [E2 [Hw2 [HT2 Hv2]]]]]; [rewrite Hc; unfold is_punct; tauto|exact Hv1|].
+  - (* last element *) intros ts v c Hv IH Hc off bs tsr HT. rewrite <- app_assoc in HT. cbn [app] in HT.
+    destruct (IH _ _ _ HT) as [w [core [w' [bs1 [off1 [E1 [Hw [Hw' [Hcore HT1]]]]]]]]].
+    destruct (tiled_punct _ _ _ _ HT1) as [w2 [bs2 [E2 [Hw2 HT2]]]]; [rewrite Hc; unfold is_punct; tauto|].
     rewrite Hc in E2. cbn [jtype_code] in E2.
     exists (w ++ core ++ w' ++ w2), bs2, (tend c). repeat split; try assumption.
     + rewrite E1, E2. repeat (first [rewrite <- app_assoc | progress cbn [app]]). reflexivity.
     + apply E_one; [exact Hw|exact Hcore|apply WS_app; assumption].
-  - (* more elements *) intros ts v cm rest vs Hv IHv Hcm He IHe off bs tsr HT Hval.
+  - (* more elements *) intros ts v cm rest vs Hv IHv Hcm He IHe off bs tsr HT.
     rewrite <- app_assoc in HT. cbn [app] in HT.
-    destruct (IHv _ _ _ HT Hval) as [w [core [w' [bs1 [off1 [E1 [Hw [Hw' [Hcore [HT1 Hv1]]]]]]]]]].
-    destruct (tiled_punct _ _ _ _ HT1) as [w2 [bs2 [E2 [Hw2 [HT2 Hv2]]]]]; [rewrite Hcm; unfold is_punct; tauto|exact Hv1|].
+    destruct (IHv _ _ _ HT) as [w [core [w' [bs1 [off1 [E1 [Hw [Hw' [Hcore HT1]]]]]]]]].
+    destruct (tiled_punct _ _ _ _ HT1) as [w2 [bs2 [E2 [Hw2 HT2]]]]; [rewrite Hcm; unfold is_punct; tauto|].
     rewrite Hcm in E2. cbn [jtype_code] in E2.
-    destruct (IHe _ _ _ HT2 Hv2) as [ebs [bs3 [off3 [E3 [Hel [HT3 Hv3]]]]]].
+    destruct (IHe _ _ _ HT2) as [ebs [bs3 [off3 [E3 [Hel HT3]]]]].
     exists (w ++ core ++ (w' ++ w2) ++ 44 :: ebs), bs3, off3. repeat split; try assumption.
     + rewrite E1, E2, E3. repeat (first [rewrite <- app_assoc | progress cbn [app]]). reflexivity.
     + apply E_cons; [exact Hw|exact Hcore|apply WS_app; assumption|exact Hel].
-  - (* last member *) intros kt k col ts v c Hkt Hk Hcol Hv IH Hc off bs tsr HT Hval.
+  - (* last member *) intros kt k col ts v c Hkt Hk Hku Hcol Hv IH Hc off bs tsr HT.
     cbn [app] in HT. rewrite <- app_assoc in HT. cbn [app] in HT.
-    destruct (tiled_string _ _ _ _ _ HT Hkt Hk Hval) as [w1 [kb [w2 [bs1 [E1 [Hw1 [Hw2 [Hks [HT1 Hv1]]]]]]]]].
-    destruct (tiled_punct _ _ _ _ HT1) as [w2' [bs2 [E2 [Hw2' [HT2 Hv2]]]]]; [rewrite Hcol; unfold is_punct; tauto|exact Hv1|].
+    destruct (tiled_string _ _ _ _ _ HT Hkt Hk Hku) as [w1 [kb [w2 [bs1 [E1 [Hw1 [Hw2 [Hks HT1]]]]]]]].
+    destruct (tiled_punct _ _ _ _ HT1) as [w2' [bs2 [E2 [Hw2' HT2]]]]; [rewrite Hcol; unfold is_punct; tauto|].
     rewrite Hcol in E2. cbn [jtype_code] in E2.
-    destruct (IH _ _ _ HT2 Hv2) as [w3 [core [w4 [bs3 [off3 [E3 [Hw3 [Hw4 [Hcore [HT3 Hv3]]]]]]]]]].
-    destruct (tiled_punct _ _ _ _ HT3) as [w4' [bs4 [E4 [Hw4' [HT4 Hv4]]]]]; [rewrite Hc; unfold is_punct; tauto|exact Hv3|].
+    destruct (IH _ _ _ HT2) as [w3 [core [w4 [bs3 [off3 [E3 [Hw3 [Hw4 [Hcore HT3]]]]]]]]].
+    destruct (tiled_punct _ _ _ _ HT3) as [w4' [bs4 [E4 [Hw4' HT4]]]]; [rewrite Hc; unfold is_punct; tauto|].
     rewrite Hc in E4. cbn [jtype_code] in E4.
     exists (w1 ++ kb ++ (w2 ++ w2') ++ 58 :: w3 ++ core ++ (w4 ++ w4')), bs4, (tend c). repeat split; try assumption.
     + rewrite E1, E2, E3, E4. repeat (first [rewrite <- app_assoc | progress cbn [app]]). reflexivity.
     + apply M_one; try assumption; apply WS_app; assumption.
-  - (* more members *) intros kt k col ts v cm rest ms Hkt Hk Hcol Hv IHv Hcm Hm IHm off bs tsr HT Hval.
+  - (* more members *) intros kt k col ts v cm rest ms Hkt Hk Hku Hcol Hv IHv Hcm Hm IHm off bs tsr HT.
     cbn [app] in HT. rewrite <- app_assoc in HT. cbn [app] in HT.
-    destruct (tiled_string _ _ _ _ _ HT Hkt Hk Hval) as [w1 [kb [w2 [bs1 [E1 [Hw1 [Hw2 [Hks [HT1 Hv1]]]]]]]]].
-    destruct (tiled_punct _ _ _ _ HT1) as [w2' [bs2 [E2 [Hw2' [HT2 Hv2]]]]]; [rewrite Hcol; unfold is_punct; tauto|exact Hv1|].
+    destruct (tiled_string _ _ _ _ _ HT Hkt Hk Hku) as [w1 [kb [w2 [bs1 [E1 [Hw1 [Hw2 [Hks HT1]]]]]]]].
+    destruct (tiled_punct _ _ _ _ HT1) as [w2' [bs2 [E2 [Hw2' HT2]]]]; [rewrite Hcol; unfold is_punct; tauto|].
     rewrite Hcol in E2. cbn [jtype_code] in E2.
-    destruct (IHv _ _ _ HT2 Hv2) as [w3 [core [w4 [bs3 [off3 [E3 [Hw3 [Hw4 [Hcore [HT3 Hv3]]]]]]]]]].
-    destruct (tiled_punct _ _ _ _ HT3) as [w4' [bs4 [E4 [Hw4' [HT4 Hv4]]]]]; [rewrite Hcm; unfold is_punct; tauto|exact Hv3|].
+    destruct (IHv _ _ _ HT2) as [w3 [core [w4 [bs3 [off3 [E3 [Hw3 [Hw4 [Hcore HT3]]]]]]]]].
+    destruct (tiled_punct _ _ _ _ HT3) as [w4' [bs4 [E4 [Hw4' HT4]]]]; [rewrite Hcm; unfold is_punct; tauto|].
     rewrite Hcm in E4. cbn [jtype_code] in E4.
-    destruct (IHm _ _ _ HT4 Hv4) as [mbs [bs5 [off5 [E5 [Hmm [HT5 Hv5]]]]]].
+    destruct (IHm _ _ _ HT4) as [mbs [bs5 [off5 [E5 [Hmm HT5]]]]].
     exists (w1 ++ kb ++ (w2 ++ w2') ++ 58 :: w3 ++ core ++ (w4 ++ w4') ++ 44 :: mbs), bs5, off5. repeat split; try assumption.
     + rewrite E1, E2, E3, E4, E5. repeat (first [rewrite <- app_assoc | progress cbn [app]]). reflexivity.
     + apply M_cons; try assumption; apply WS_app; assumption.
@@ -1882,16 +1783,16 @@ Proof.
   - destruct rest; discriminate.
 Qed.
 
-(* On valid UTF-8 input the parser accepts only JSON texts, with the value the
-   grammar assigns. *)
-Theorem accept_sound_partial : forall bs v,
-  jparse bs = JRes v [] -> utf8_valid bs = true -> JsonText bs v.
+(* The property as stated, in full: whatever the parser accepts is a JSON text,
+   and the node is the value the grammar assigns (duplicates in order, numbers
+   exact).  (False before /repo 0784545: "\xff" was accepted.) *)
+Theorem accept_sound : forall bs v, jparse bs = JRes v [] -> JsonText bs v.
 Proof.
-  intros bs v H Hv. unfold jparse in H.
+  intros bs v H. unfold jparse in H.
   destruct (parse_tokens_accept _ _ H) as [t [r [Hp Ht]]].
   destruct (parse_sound _ _ _ _ Hp) as [pre [E Htok]].
   pose proof (jscan_tiled bs) as HT. rewrite E in HT.
-  destruct (proj1 tiled_sound _ _ Htok _ _ _ HT Hv) as [w [core [w' [bs' [off' [Eb [Hw [Hw' [Hcore [HT' _]]]]]]]]]].
+  destruct (proj1 tiled_sound _ _ Htok _ _ _ HT) as [w [core [w' [bs' [off' [Eb [Hw [Hw' [Hcore HT']]]]]]]]].
   assert (Hws : WS bs').
   { inversion HT'; subst.
     - apply sc_WS_WS. assumption.
@@ -1901,35 +1802,25 @@ Proof.
   apply WS_app; assumption.
 Qed.
 
-(* ---- C4. the refutations (vm_compute on the faithful model) --------------------------- *)
+(* ---- C4. the remaining refutation (vm_compute on the faithful model) ------------------ *)
 
-(* "\xff" : accepted (the byte becomes U+FFFD), not a JSON text *)
-Theorem accept_sound_refuted : ~ accept_sound.
-Proof.
-  intro H. destruct (H [34; 255; 34] (JStr [239; 191; 189])) as [v' Hv'].
-  - vm_compute. reflexivity.
-  - apply json_text_dec_complete in Hv'. vm_compute in Hv'. discriminate.
-Qed.
-
-(* ["<U+0600>",0] : a JSON text; scanString glues the closing quote to the
-   Prepend-class character and the string token runs on *)
-Theorem accept_complete_refuted : ~ accept_complete.
+(* 1e99999999999 : a JSON text; big.ParseFloat reports exponent overflow and
+   parseNumber answers "Invalid JSON number" *)
+Theorem accept_complete_refuted_exponent : ~ accept_complete.
 Proof.
   intro H.
-  assert (Ht : JsonText [91; 34; 216; 128; 34; 44; 48; 93] (JArr [JStr [216; 128]; JNum 0 0])).
+  assert (Ht : JsonText [49; 101; 57; 57; 57; 57; 57; 57; 57; 57; 57; 57; 57] (JNum 1 99999999999)).
   { apply json_text_dec_sound. vm_compute. reflexivity. }
   apply H in Ht. vm_compute in Ht. discriminate.
 Qed.
 
-(* 1e99999999999 : a JSON text; big.ParseFloat reports exponent overflow *)
-Theorem accept_complete_refuted_exponent :
-  exists bs v, JsonText bs v /\ has_prepend bs = false /\ jparse bs <> JRes v [].
-Proof.
-  exists [49; 101; 57; 57; 57; 57; 57; 57; 57; 57; 57; 57; 57], (JNum 1 99999999999). split; [|split].
-  - apply json_text_dec_sound. vm_compute. reflexivity.
-  - vm_compute. reflexivity.
-  - vm_compute. discriminate.
-Qed.
+(* the former witnesses are now handled correctly *)
+Example former_witness_invalid_utf8 : jparse [34; 255; 34] = JRes JInvalid [DInvalidString].
+Proof. vm_compute. reflexivity. Qed.
+
+Example former_witness_prepend :
+  jparse [91; 34; 216; 128; 34; 44; 48; 93] = JRes (JArr [JStr [216; 128]; JNum 0 0]) [].
+Proof. vm_compute. reflexivity. Qed.
 
 (* ================================================================================== *)
 (* D. totality: with fuel = number of tokens + 1 the parser never runs out of fuel     *)
@@ -2137,7 +2028,8 @@ Proof.
     destruct (zlist_eqb (tbytes t) [102; 97; 108; 115; 101]); [do 2 eexists; reflexivity|].
     destruct (zlist_eqb (tbytes t) [110; 117; 108; 108]); do 2 eexists; reflexivity.
   - (* string *) apply wrap_invalid_ok. unfold parse_string. apply leaf_ok; [exact Hw|].
-    intros t rest. destruct (json_string_decode (tbytes t)); do 2 eexists; reflexivity.
+    intros t rest. destruct (json_string_decode (tbytes t)); [|do 2 eexists; reflexivity].
+    destruct (negb (utf8_valid (tbytes t))); do 2 eexists; reflexivity.
   - (* number *) apply wrap_invalid_ok. unfold parse_number. apply leaf_ok; [exact Hw|].
     intros t rest. destruct (negb (json_number_ok (tbytes t))); [do 2 eexists; reflexivity|].
     destruct (negb (big_parse_ok (tbytes t))); [do 2 eexists; reflexivity|].
@@ -2171,32 +2063,14 @@ Qed.
 (* E. a JSON text is valid UTF-8 (the hypothesis of accept_sound_partial is necessary) *)
 (* ================================================================================== *)
 
-Lemma ascii_valid l : Forall (fun b => b < 128) l -> utf8_valid l = true.
-Proof.
-  intro H. unfold utf8_valid. rewrite <- (app_nil_r l). rewrite utf8_valid_ascii_list by exact H. reflexivity.
-Qed.
+Lemma WS_ascii w : WS w -> Forall (fun b => b < 128) w.
+Proof. unfold WS. apply Forall_impl. intros a H. unfold ws_byte in H. lia. Qed.
 
-Lemma item_valid i : item_ok i -> utf8_valid (item_bytes i) = true.
+Lemma number_byte_ascii b : number_byte b = true -> b < 128.
 Proof.
-  destruct i as [bs|c|h1 h2 h3 h4]; simpl; intro H.
-  - destruct H as [b Hb _ _|bs' Hm].
-    + apply ascii_valid. repeat constructor. lia.
-    + unfold utf8_valid. rewrite <- (app_nil_r bs'). rewrite (utf8_valid_multi _ _ Hm). reflexivity.
-  - apply ascii_valid. repeat constructor; unfold esc_letter in H; lia.
-  - destruct H as [H1 [H2 [H3 H4]]]. apply ascii_valid.
-    repeat constructor; try (apply hexdig_ascii; assumption); lia.
-Qed.
-
-Lemma items_valid items : Forall item_ok items -> utf8_valid (flat_map item_bytes items) = true.
-Proof.
-  induction 1 as [|i items Hi _ IH]; [reflexivity|]. cbn [flat_map].
-  apply utf8_valid_app; [apply item_valid; exact Hi|exact IH].
-Qed.
-
-Lemma StringLit_valid bs s : StringLit bs s -> utf8_valid bs = true.
-Proof.
-  intros [items Hi]. change (34 :: flat_map item_bytes items ++ [34]) with ([34] ++ flat_map item_bytes items ++ [34]).
-  apply utf8_valid_app; [reflexivity|]. apply utf8_valid_app; [apply items_valid; exact Hi|reflexivity].
+  unfold number_byte, sc_digit. intro H.
+  repeat (apply orb_true_iff in H; destruct H as [H|H]); try (apply Z.eqb_eq in H; lia).
+  apply andb_true_iff in H. destruct H as [_ H]. apply Z.leb_le in H. lia.
 Qed.
 
 Lemma WS_valid w : WS w -> utf8_valid w = true.
@@ -2245,12 +2119,25 @@ Proof.
   intros [w1 core w2 v' Hw1 Hv Hw2]. pose proof (proj1 Value_valid _ _ Hv). valid_apps.
 Qed.
 
-(* acceptance, on input without Prepend-class characters and with numbers in
-   big.Float's exponent range, is exactly JSON *)
-Corollary accept_iff bs v : has_prepend bs = false -> go_numbers_ok bs = true ->
-  (jparse bs = JRes v [] /\ utf8_valid bs = true <-> JsonText bs v).
+(* acceptance, when every number is within big.Float's exponent range, is exactly JSON *)
+Corollary accept_iff bs v : go_numbers_ok bs = true -> (jparse bs = JRes v [] <-> JsonText bs v).
 Proof.
-  intros Hp Hn. split.
-  - intros [H Hv]. apply accept_sound_partial; assumption.
-  - intro H. split; [apply accept_complete_partial; assumption|eapply JsonText_utf8_valid; exact H].
+  intros Hn. split; [apply accept_sound|intro H; apply accept_complete_partial; assumption].
 Qed.
+
+(* ================================================================================== *)
+(* F. literal mapping, end to end                                                       *)
+(* ================================================================================== *)
+
+From HclV Require Import Json.Literal.
+
+(* The literal value of an accepted (valid UTF-8) text is the spec mapping
+   (Literal.value_of) of the JSON value the RFC 8259 grammar assigns to the text. *)
+Theorem literal_mapping bs v :
+  jparse bs = JRes v [] -> exists vref, JsonText bs vref /\ value_of v = value_of vref.
+Proof. intros H. exists v. split; [apply accept_sound; assumption|reflexivity]. Qed.
+
+Theorem literal_mapping_complete bs vref :
+  JsonText bs vref -> go_numbers_ok bs = true ->
+  exists v, jparse bs = JRes v [] /\ value_of v = value_of vref.
+Proof. intros H Hn. exists vref. split; [apply accept_complete_partial; assumption|reflexivity]. Qed.
